@@ -437,11 +437,9 @@ func Param(name string) VP {
 		if !ok {
 			return false
 		}
-		// inside a helper whose outcome is being expanded, a parameter stands for the caller's argument
-		if s, has := exprParamSubst[p]; has {
-			return s == name
-		}
-		return p.Name() == name
+		// inside a helper whose outcome is being expanded, a parameter stands for the caller's argument;
+		// a renamed parameter keeps the name it had on the pinned tree
+		return paramName(p) == name
 	}
 }
 
